@@ -196,6 +196,8 @@ type Exec struct {
 	ctxChildren map[*ctxObj][]*ctxObj
 	panicsLogged []string
 	reqCtx      map[*value]value
+	clockFirst  *Int
+	clockFrozen bool
 	ufApps      []ufApp
 	pendingFacts []string
 }
@@ -680,6 +682,8 @@ func (e *Exec) runPath(prefix []int64) {
 	e.panicsLogged = nil
 	e.reqCtx = map[*value]value{}
 	e.ufApps, e.pendingFacts = nil, nil
+	e.clockFirst = nil
+	e.clockFrozen = false
 	e.initSched()
 	e.sol.Send("(push 1)")
 	defer func() {
